@@ -25,6 +25,9 @@ pub enum First {
     Batch,
     Error,
     Ok,
+    /// only part of a subscriber registration's bytes is written; the stream stays open and
+    /// is completed at the end of the script
+    Partial { cut: u8 },
 }
 
 #[derive(Debug, Clone, Copy, Serialize, Deserialize, Hash, PartialEq, Eq)]
@@ -113,6 +116,8 @@ struct World {
     replier: HashMap<u8, Peer>,
     /// keep helper peers alive
     keep: Vec<Peer>,
+    /// streams with an unfinished first frame: (stream halves, remaining bytes, description)
+    partial: Vec<(quinn::SendStream, quinn::RecvStream, Vec<u8>, String)>,
 }
 
 const W: Duration = Duration::from_secs(8);
@@ -183,7 +188,7 @@ async fn run_inner(certs: &Certs, c: &Case) -> Result<Outcome, Outcome> {
     let id = RawIdentity::from_certs(certs).map_err(|e| Outcome::Inconclusive(format!("certs: {e}")))?;
     let conn = raw_connect(server.addr, &id).await.map_err(Outcome::Inconclusive)?;
     let panics_before = panics::global_len();
-    let mut w = World { conn, kind: HashMap::new(), replier: HashMap::new(), keep: vec![] };
+    let mut w = World { conn, kind: HashMap::new(), replier: HashMap::new(), keep: vec![], partial: vec![] };
     let mut labels: Vec<&'static str> = vec![];
 
     for (t, rr) in c.pre.iter().take(3) {
@@ -206,6 +211,17 @@ async fn run_inner(certs: &Certs, c: &Case) -> Result<Outcome, Outcome> {
     for (si, sc) in c.streams.iter().enumerate() {
         let t = sc.topic % 3;
         let what = format!("stream {si} ({:?} on {})", sc.first, tname(t));
+        if let First::Partial { cut } = sc.first {
+            use tokio_util::codec::Encoder;
+            let mut buf = bytes::BytesMut::new();
+            selium_protocol::MessageCodec.encode(reg_sub(NS, &tname(t)), &mut buf).map_err(|e| Outcome::Inconclusive(format!("encode: {e}")))?;
+            let k = 1 + cut as usize % (buf.len() - 1);
+            let (mut send, recv) = tokio::time::timeout(W, w.conn.open_bi()).await.map_err(|_| Outcome::Inconclusive("open_bi timed out".into()))?.map_err(|e| Outcome::Inconclusive(e.to_string()))?;
+            send.write_all(&buf[..k]).await.map_err(|e| Outcome::Inconclusive(format!("partial write: {e}")))?;
+            w.partial.push((send, recv, buf[k..].to_vec(), what));
+            labels.push("partial-first-frame");
+            continue;
+        }
         let (role_pattern, first_frame): (Option<Pattern>, Frame) = match sc.first {
             First::RegPub => (Some(Pattern::PubSub), reg_pub(NS, &tname(t))),
             First::RegSub => (Some(Pattern::PubSub), reg_sub(NS, &tname(t))),
@@ -216,6 +232,7 @@ async fn run_inner(certs: &Certs, c: &Case) -> Result<Outcome, Outcome> {
             First::Batch => (None, small_frame(5, t)),
             First::Error => (None, small_frame(6, t)),
             First::Ok => (None, Frame::Ok),
+            First::Partial { .. } => unreachable!(),
         };
         let is_replier = matches!(sc.first, First::RegRep);
         let second_replier = is_replier && w.replier.contains_key(&t);
@@ -226,6 +243,10 @@ async fn run_inner(certs: &Certs, c: &Case) -> Result<Outcome, Outcome> {
                 match &reply {
                     FirstReply::Frame(Frame::Error(e)) if e.code == INVALID_TOPIC_NAME => {}
                     other => return Err(Outcome::fail("invalid-name-not-refused", format!("{what}: expected Error(INVALID_TOPIC_NAME), got {other:?}"))),
+                }
+                // explicitly refused means refused: nothing more may arrive on that stream
+                if peer.wait_for(Duration::from_millis(300), |f| !matches!(f, Frame::Error(_))).await {
+                    return Err(Outcome::fail("refused-then-served", format!("{what}: refused with INVALID_TOPIC_NAME and then sent {:?}", peer.received)));
                 }
                 continue;
             }
@@ -339,6 +360,17 @@ async fn run_inner(certs: &Certs, c: &Case) -> Result<Outcome, Outcome> {
         w.keep.push(peer);
     }
 
+    // the streams whose first frame was left unfinished are completed now: each must then be
+    // answered (Ok, or the pattern-mismatch error if the topic runs request/reply)
+    for (mut send, recv, rest, what) in std::mem::take(&mut w.partial) {
+        send.write_all(&rest).await.map_err(|e| Outcome::Inconclusive(format!("completing a partial frame: {e}")))?;
+        let mut s = BiStream::from((send, recv));
+        match tokio::time::timeout(W, s.next()).await {
+            Ok(Some(Ok(Frame::Ok))) | Ok(Some(Ok(Frame::Error(_)))) => {}
+            other => return Err(Outcome::fail("stream-left-hanging", format!("{what}: completed after the rest of the script, then neither accepted nor refused: {:?}", other.map(|o| o.map(|r| r.map_err(|e| e.to_string())))))),
+        }
+        drop(s);
+    }
     // let the server digest everything
     tokio::time::sleep(Duration::from_millis(60)).await;
     // ---- every touched topic must still serve well-behaved peers ----
@@ -353,7 +385,7 @@ async fn run_inner(certs: &Certs, c: &Case) -> Result<Outcome, Outcome> {
     if let Some(p) = new_panics.iter().find(|p| !p.contains("/verif/harness/")) {
         return Err(Outcome::fail(format!("server-panic:{}", panics::normalise(p)), format!("a server task panicked during the case: {p}")));
     }
-    let nontrivial = labels.iter().any(|l| matches!(*l, "frame-kind-the-role-never-sends" | "cross-pattern-registration" | "request-near-limit" | "non-registration-first-frame" | "second-replier"));
+    let nontrivial = labels.iter().any(|l| matches!(*l, "partial-first-frame" | "frame-kind-the-role-never-sends" | "cross-pattern-registration" | "request-near-limit" | "non-registration-first-frame" | "second-replier"));
     labels.sort();
     labels.dedup();
     Ok(Outcome::pass(labels, nontrivial))
@@ -404,6 +436,7 @@ pub fn strategy() -> BoxedStrategy<Case> {
         1 => Just(First::Batch),
         1 => Just(First::Error),
         1 => Just(First::Ok),
+        2 => any::<u8>().prop_map(|cut| First::Partial { cut }),
     ];
     let follow = prop_oneof![
         6 => (0u8..8).prop_map(Follow::Kind),
